@@ -23,6 +23,8 @@ static void profile_init(int p) {
         unsigned char b[150];
         for (int i = 0; i < 150; i++) b[i] = (unsigned char) (i * 7 + 3) | 1;
         setv(1, b, 100); b[5] ^= 0x40; setv(2, b, 100); setv(3, b, 99); b[148] = 0; b[149] = 0; setv(4, b, 150);
+    } else if (p == 4) {
+        setv(1, "p\0q", 3); setv(2, "p\0r", 3); setv(3, "p\0", 2); setv(4, "p\0q\0", 4);   /* equal up to an embedded NUL */
     } else {
         setv(1, "x\0", 2); setv(2, "x", 1); setv(3, "x\0x", 3); setv(4, "xx\0", 3);   /* values that are prefixes of each other */
     }
